@@ -59,6 +59,7 @@ from ..ast.fpyast import (
 )
 from ..ast.visitor import DefaultTransformVisitor
 from ..utils import Gensym
+from .rename_target import RenameTarget
 
 
 @dataclasses.dataclass
@@ -134,8 +135,17 @@ class _ReduceFusionInstance(DefaultTransformVisitor):
             Assign(acc, None, combine, e.loc),
         ])
 
+        # A comprehension target is local to the comprehension; a `for` target
+        # is not, so the loop would rebind (and leave bound) a variable of the
+        # same name.  The loop gets names of its own.  The iterable is
+        # evaluated outside the comprehension and keeps its names.
+        subst = {name: self.gensym.refresh(name) for name in target.names()}
+        loop = ForStmt(target, BoolVal(False, e.loc), body, e.loc)
+        renamed = RenameTarget.apply_block(StmtBlock([loop]), subst).stmts[0]
+        assert isinstance(renamed, ForStmt)
+
         ctx.stmts.append(Assign(acc, None, BoolVal(not is_any, e.loc), e.loc))
-        ctx.stmts.append(ForStmt(target, iterable, body, e.loc))
+        ctx.stmts.append(ForStmt(renamed.target, iterable, renamed.body, e.loc))
         return Var(acc, e.loc)
 
     # ------------------------------------------------------------------
